@@ -100,9 +100,15 @@ def _one(spec: str, cfgfile, traces: list, idx: list, workdir, tag: str, timeout
     return v
 
 
+def _relieve():
+    from .core import relieve_jit
+    relieve_jit()
+
+
 def validate(ctx, spec: str, traces: list, tag: str, *, cfgfile=None, procs: int = 1, timeout: int = 3600,
              env_extra: dict | None = None) -> TraceVerdicts:
     """Validate `traces` against trace specification `spec` (path relative to /verif/spec)."""
+    _relieve()
     if not traces:
         return TraceVerdicts()
     procs = max(1, min(procs, len(traces) // 50 or 1))
